@@ -20,6 +20,44 @@ type Prog struct {
 	CS      *ContractSet
 	Funcs   map[string]*ssa.Function // by fn.String()
 	SSAPkgs map[string]*ssa.Package
+	logInfo map[string]map[string]logCompInfo
+	logBusy map[string]bool
+}
+
+type logCompInfo struct {
+	sort string
+	typ  types.Type
+}
+
+// calleeLogInfo returns the sorts (and Go types) of the call-log components of a
+// contracted function, obtained by generating (not discharging) its VCs once.
+func (p *Prog) calleeLogInfo(name string) map[string]logCompInfo {
+	if p.logInfo == nil {
+		p.logInfo = map[string]map[string]logCompInfo{}
+		p.logBusy = map[string]bool{}
+	}
+	if m, ok := p.logInfo[name]; ok {
+		return m
+	}
+	m := map[string]logCompInfo{}
+	p.logInfo[name] = m
+	fn, con := p.Funcs[name], p.CS.Funcs[name]
+	if fn == nil || con == nil || fn.Blocks == nil || p.logBusy[name] {
+		return m
+	}
+	p.logBusy[name] = true
+	vc := NewFuncVC(p, fn, con)
+	func() {
+		defer func() { recover() }()
+		_ = vc.Run()
+	}()
+	for comp, sort := range vc.comps {
+		if strings.HasPrefix(comp, "LG!") {
+			m[comp[3:]] = logCompInfo{sort, vc.logTypes[comp]}
+		}
+	}
+	p.logBusy[name] = false
+	return m
 }
 
 func LoadProg(repo string, patterns []string, specDir string) (*Prog, error) {
